@@ -22,6 +22,15 @@ NOT_APPLICABLE = {
 }
 
 REGISTRY = {
+    "C01": {
+        "modules": ["c01"],
+        "level_text": "Per-call energy ledgers on the deposit paths named in the property, as contracts on the real code (extracted to C each run): ElossApplier moves exactly the helper's amount d from the particle to the deposition (same machine value, once) with 0 <= E' <= E; TrackingCutExecutor deposits E (+2mc^2 for antiparticles) and zeroes the particle; MeanELoss::calc_eloss / calc_mean_energy_loss never exceed E and give exactly E for a range-limited step; the leaf view operations they call are enforced against the real member functions. The event-level sum is a paper lemma (telescoping) over these contracts and is not decided here.",
+        "level_note": "Trusted: CBMC/dfcc/SAT, cvc5 for FP units; extraction rules; view model prelude/views.h (accessor stubs assumed to be plain reads); table calculators by assumed contracts; two IEEE multiplication monotonicity lemmas assumed; FluctELoss sampler, MSC, field along-step variants and the whole-event sum are not decided.",
+        "design_ref": "DESIGN.md 4 C01",
+        "trusted_base": ["paper lemma: summing the per-call ledgers over steps and tracks telescopes to the event balance (given C04 per model and C02 for secondaries)"],
+        "assumptions": [],
+        "not_decided": ["event-level balance (sum over tracks/steps)", "FluctELoss sampled loss", "InteractionApplier sub-cut secondaries loop (planned)", "MSC / field along-step variants (no energy moves there)"],
+    },
     "C02": {
         "modules": ["c02"],
         "level_text": "Contracts on the real index arithmetic and per-slot kernels of track initialization (extracted to C each run), discharged by CBMC for all sizes and thread ids: vacancy/initializer indices in range and injective, charge-partitioned vacancies of distinct threads distinct. The whole-run clauses (termination, counters over many steps, multi-event interleaving) rest on a paper lemma over these per-call contracts and are listed as not decided.",
